@@ -484,6 +484,9 @@ def granger_causality_xy(a, cov, n_freqs=1024):
 
     w, Hw = transfer_function_xy(a, n_freqs=n_freqs)
 
+    # floating point arithmetic also for an integer-valued covariance matrix
+    # (upsilon ** 2 overflows int64 for large entries)
+    cov = np.asarray(cov, dtype=np.result_type(cov, np.float64))
     sigma = cov[0, 0]
     upsilon = cov[0, 1]
     gamma = cov[1, 1]
